@@ -216,12 +216,33 @@ ItemFieldTys(it) ==
   IF it.kind = "struct" THEN [i \in DOMAIN it.fields |-> it.fields[i].ty]
   ELSE FlattenSeq([v \in DOMAIN it.variants |-> [i \in DOMAIN it.variants[v].fields |-> it.variants[v].fields[i].ty]])
 
+\* number of generic type arguments that a known library path takes (-1: not a library path the generator emits by itself;
+\* -2: never well-formed without a lifetime argument)
+LibArity(t) ==
+  IF ~t.lead THEN -1
+  ELSE IF Len(t.segs) = 3 /\ t.segs[1] = "core" THEN
+         CASE t.segs[2] = "option" /\ t.segs[3] = "Option" -> 1
+           [] t.segs[2] = "result" /\ t.segs[3] = "Result" -> 2
+           [] t.segs[2] = "ops" /\ t.segs[3] \in {"Range", "RangeInclusive"} -> 1
+           [] t.segs[2] \in {"num", "time", "primitive"} -> 0
+           [] t.segs[2] = "marker" /\ t.segs[3] = "PhantomData" -> 1
+           [] OTHER -> -1
+  ELSE IF Len(t.segs) >= 3 THEN
+         LET tl == <<t.segs[Len(t.segs) - 1], t.segs[Len(t.segs)]>> IN
+         CASE tl \in {<<"vec", "Vec">>, <<"boxed", "Box">>, <<"collections", "BTreeSet">>, <<"collections", "BinaryHeap">>,
+                      <<"collections", "VecDeque">>, <<"collections", "LinkedList">>} -> 1
+           [] tl = <<"collections", "BTreeMap">> -> 2
+           [] tl = <<"string", "String">> -> 0
+           [] tl = <<"borrow", "Cow">> -> -2
+           [] OTHER -> -1
+  ELSE -1
+
 \* every root-relative path resolves with the right arity; bare single identifiers are generics of the item
 RECURSIVE TyResolves(_, _, _)
 TyResolves(Root, generics, t) ==
   CASE t.k = "path" ->
          /\ \A i \in DOMAIN t.args : TyResolves(Root, generics, t.args[i])
-         /\ IF t.lead THEN TRUE
+         /\ IF t.lead THEN LibArity(t) = -1 \/ LibArity(t) = Len(t.args)
             ELSE IF t.segs[1] = Root.name
                  THEN LET it == FindItem(Root, t.segs) IN it.kind # "none" /\ Len(t.args) = Len(it.generics)
             ELSE IF Len(t.segs) = 1 /\ Len(t.args) = 0 /\ (\E g \in DOMAIN generics : generics[g] = t.segs[1]) THEN TRUE
